@@ -231,6 +231,8 @@ func MakeException(r interface{}) *Exception {
 		return exceptionNew(SystemError, Tuple{String(x.Error())})
 	case string:
 		return exceptionNew(SystemError, Tuple{String(x)})
+	case Object:
+		return ExceptionNewf(TypeError, "exceptions must derive from BaseException")
 	default:
 		return exceptionNew(SystemError, Tuple{String(fmt.Sprintf("Unknown error %#v", r))})
 	}
